@@ -107,7 +107,7 @@ fn cmd_fq(args: &[String]) {
     println!(
         "{}",
         serde_json::json!({"behaviours": st.behaviours, "model_steps": st.steps, "polls": st.polls, "window_polls": st.window_polls,
-            "snapshots_compared": st.compared, "drifted": st.drifted, "drift_samples": st.drift_samples, "events": trace.len()})
+            "snapshots_compared": st.compared, "drifted": st.drifted, "drift_samples": st.drift_samples, "left_model": st.left_model, "events": trace.len()})
     );
 }
 
